@@ -27,13 +27,24 @@ impl Decimal {
     }
 
     pub fn lcm(&self, other: &Decimal) -> Decimal {
+        self.checked_lcm(other)
+            .expect("multipleOf values too large to combine")
+    }
+
+    /// Least common multiple; `None` if it does not fit the `u32` coefficient.
+    pub fn checked_lcm(&self, other: &Decimal) -> Option<Decimal> {
         if self.coef == 0 || other.coef == 0 {
-            return Decimal::new(0, 0);
+            return Some(Decimal::new(0, 0));
         }
-        let a = self.coef * 10u32.pow(other.exp.saturating_sub(self.exp));
-        let b = other.coef * 10u32.pow(self.exp.saturating_sub(other.exp));
-        let coef = (a * b) / gcd(a, b);
-        Decimal::new(coef, self.exp.max(other.exp))
+        let a = self
+            .coef
+            .checked_mul(10u32.checked_pow(other.exp.saturating_sub(self.exp))?)?;
+        let b = other
+            .coef
+            .checked_mul(10u32.checked_pow(self.exp.saturating_sub(other.exp))?)?;
+        // divide first: a / gcd(a, b) * b is the same value and overflows only if the result does
+        let coef = (a / gcd(a, b)).checked_mul(b)?;
+        Some(Decimal::new(coef, self.exp.max(other.exp)))
     }
 
     pub fn to_f64(&self) -> f64 {
